@@ -2,21 +2,29 @@
    what a connection holds for its peer's input:
      rawInputBuf (rest of the current datagram), handBuf (handshake bytes not yet handed up),
      pendingFragments (reassembly buffers, Model/Fragment.v), retryCount, fragmentReads,
-     the depth of the readDatagram recursion.
-   Modelled: readDatagram (foreign source addresses, the maxCiphertext+13 byte read buffer),
-   readRecordOrCCS (one loop iteration per record: header checks, epoch filter, decryption result,
-   stray-CCS drop, replay drop, maxPlaintext, the record-type switch with its continue / return /
-   retry paths, deferredCCS, the 2*MSL dwell retransmission), readChangeCipherSpec, readHandshake
-   (fragmentReads limit, the two waiting loops, maxHandshake, fragment bounds, reassembly through
-   Fragment.rh_step).
+     handLenAtEntry (local variable of readRecordOrCCS), and the number of readRecordOrCCS frames
+     that retryReadRecord has put on the stack.
+   Modelled, following the library as it is now (the fixes that touch this code: a747200, 593205a,
+   1e7de38, 6b259b8, and the record-layer drop rules of 73e5128 / 627c7bd / ea20d51 / 1e457f3):
+   readDatagram (a loop that skips datagrams from other source addresses; the maxCiphertext+13 byte
+   read buffer), readRecordOrCCS (one loop iteration per record: "return once handBuf grew instead
+   of reading another datagram", header checks, epoch filter, decryption result, stray-CCS drop,
+   replay drop, maxPlaintext, the record-type switch with its continue / return / retry paths,
+   deferredCCS, the 2*MSL dwell retransmission; on an established connection malformed datagrams
+   and records that fail authentication are discarded silently), retryReadRecord (a recursion: a
+   new frame of readRecordOrCCS with its own handLenAtEntry), readChangeCipherSpec, readHandshake
+   (fragmentReads limit, the two waiting loops, maxHandshake, fragment bounds, the limit on the
+   number of reassembly buffers, reassembly through Fragment.rh_step).
+   Not in the state because the code keeps nothing for it: what is written (writeFlight 5831190,
+   empty application records a14f836: output side); the client / server handshake loops (e9234b4,
+   da0cf9c: instances of the abstract handshake layer).
    Abstract (arguments over which every theorem quantifies): record protection [dec], the replay
    window verdicts [fresh], the clock of the dwell period [dwell_time] / [has_flight], and the
    handshake layer [on_msg] / [on_ccs] as in Model/ConnT.v.
-   [fix11] selects the repair proposed for finding K14 (once handBuf grew in a readRecordOrCCS
-   call, return instead of reading another datagram); the code as built is fix11 = false.
-   Ghost fields (not in the Go state): d_n (records seen: index into the oracles), d_iters (fragment
-   loop iterations so far), d_calls (1 + readHandshake calls started after the first thing the
-   handshake layer read), d_appended.
+   Ghost fields (not in the Go state): d_n (records seen: index into the oracles), d_calls
+   (1 + readHandshake calls started after the first thing the handshake layer read).
+   The code before fixes 593205a (K13), 1e7de38 (K12), 6b259b8 (K14) is kept as the named
+   regression definitions read_datagram_K13, ddrive_K12 / dafter_K12 / drun_K12, drun_K14.
    No proofs in this file. *)
 From V Require Export Model.Codec Model.ConnT.
 From V Require Export Model.Fragment.
@@ -37,6 +45,27 @@ Definition nth0 (l : bytes) (i : nat) : N := nth i l 0%N.
 
 Inductive act := Continue | Return.
 
+(* total size of the reassembly buffers: data and received-bitmask of each *)
+Definition pend_bytes (p : pending) : nat :=
+  fold_right (fun kv acc => length (fb_data (snd kv)) + length (fb_recv (snd kv)) + acc) 0 p.
+
+(* readHandshake's fragment path: is the piece at the head of handBuf a fragment, is there a
+   reassembly buffer for its message number, must a new buffer be refused (1e7de38) *)
+Definition is_fragment (f : frag) : bool := Nat.ltb (f_len f) (f_blen f) || Nat.ltb 0 (f_off f).
+Definition pmem (k : N) (p : pending) : bool := match plookup k p with Some _ => true | None => false end.
+Definition refuse_new_buffer (p : pending) (f : frag) : bool :=
+  is_fragment f && negb (pmem (f_seq f) p) && (maxHandshakeFragments <=? length p).
+
+(* readDatagram before 593205a: `return c.readDatagram()` for a datagram from another address; the
+   result also carries the number of frames of readDatagram on the stack when the peer's datagram
+   (or the end of the input) is reached *)
+Fixpoint read_datagram_K13 (dgs : list dgram) (depth : nat) : option bytes * list dgram * nat :=
+  match dgs with
+  | [] => (None, [], depth)
+  | Foreign :: t => read_datagram_K13 t (Datatypes.S depth)
+  | FromPeer b :: t => (Some (firstn dgramBuf b), t, depth)
+  end.
+
 Section DMachine.
   Variable S : Type.
   Variable on_msg : S -> bytes -> option (S * want * option N).
@@ -45,7 +74,6 @@ Section DMachine.
   Variable fresh : nat -> bool.
   Variable dwell_time : nat -> bool.
   Variable has_flight : bool.
-  Variable fix11 : bool.
 
   Record dconn := mkD {
     d_alive : bool;
@@ -65,73 +93,82 @@ Section DMachine.
     d_freads : nat;
     d_counted : bool;
     d_n : nat;
-    d_depth : nat;
-    d_appended : bool;
-    d_iters : nat;
+    d_entry : nat;
+    d_frames : nat;
     d_calls : nat
   }.
 
   Definition set_alive (c : dconn) (x : bool) : dconn :=
-    mkD x (d_want c) (d_hs c) (d_raw c) (d_hand c) (d_pend c) (d_retry c) (d_vers c) (d_cipher c) (d_epoch c) (d_deferred c) (d_ccs_done c) (d_dwell c) (d_delivered c) (d_freads c) (d_counted c) (d_n c) (d_depth c) (d_appended c) (d_iters c) (d_calls c).
+    mkD x (d_want c) (d_hs c) (d_raw c) (d_hand c) (d_pend c) (d_retry c) (d_vers c) (d_cipher c) (d_epoch c) (d_deferred c) (d_ccs_done c) (d_dwell c) (d_delivered c) (d_freads c) (d_counted c) (d_n c) (d_entry c) (d_frames c) (d_calls c).
   Definition set_want (c : dconn) (x : want) : dconn :=
-    mkD (d_alive c) x (d_hs c) (d_raw c) (d_hand c) (d_pend c) (d_retry c) (d_vers c) (d_cipher c) (d_epoch c) (d_deferred c) (d_ccs_done c) (d_dwell c) (d_delivered c) (d_freads c) (d_counted c) (d_n c) (d_depth c) (d_appended c) (d_iters c) (d_calls c).
+    mkD (d_alive c) x (d_hs c) (d_raw c) (d_hand c) (d_pend c) (d_retry c) (d_vers c) (d_cipher c) (d_epoch c) (d_deferred c) (d_ccs_done c) (d_dwell c) (d_delivered c) (d_freads c) (d_counted c) (d_n c) (d_entry c) (d_frames c) (d_calls c).
   Definition set_hs (c : dconn) (x : S) : dconn :=
-    mkD (d_alive c) (d_want c) x (d_raw c) (d_hand c) (d_pend c) (d_retry c) (d_vers c) (d_cipher c) (d_epoch c) (d_deferred c) (d_ccs_done c) (d_dwell c) (d_delivered c) (d_freads c) (d_counted c) (d_n c) (d_depth c) (d_appended c) (d_iters c) (d_calls c).
+    mkD (d_alive c) (d_want c) x (d_raw c) (d_hand c) (d_pend c) (d_retry c) (d_vers c) (d_cipher c) (d_epoch c) (d_deferred c) (d_ccs_done c) (d_dwell c) (d_delivered c) (d_freads c) (d_counted c) (d_n c) (d_entry c) (d_frames c) (d_calls c).
   Definition set_raw (c : dconn) (x : bytes) : dconn :=
-    mkD (d_alive c) (d_want c) (d_hs c) x (d_hand c) (d_pend c) (d_retry c) (d_vers c) (d_cipher c) (d_epoch c) (d_deferred c) (d_ccs_done c) (d_dwell c) (d_delivered c) (d_freads c) (d_counted c) (d_n c) (d_depth c) (d_appended c) (d_iters c) (d_calls c).
+    mkD (d_alive c) (d_want c) (d_hs c) x (d_hand c) (d_pend c) (d_retry c) (d_vers c) (d_cipher c) (d_epoch c) (d_deferred c) (d_ccs_done c) (d_dwell c) (d_delivered c) (d_freads c) (d_counted c) (d_n c) (d_entry c) (d_frames c) (d_calls c).
   Definition set_hand (c : dconn) (x : bytes) : dconn :=
-    mkD (d_alive c) (d_want c) (d_hs c) (d_raw c) x (d_pend c) (d_retry c) (d_vers c) (d_cipher c) (d_epoch c) (d_deferred c) (d_ccs_done c) (d_dwell c) (d_delivered c) (d_freads c) (d_counted c) (d_n c) (d_depth c) (d_appended c) (d_iters c) (d_calls c).
+    mkD (d_alive c) (d_want c) (d_hs c) (d_raw c) x (d_pend c) (d_retry c) (d_vers c) (d_cipher c) (d_epoch c) (d_deferred c) (d_ccs_done c) (d_dwell c) (d_delivered c) (d_freads c) (d_counted c) (d_n c) (d_entry c) (d_frames c) (d_calls c).
   Definition set_pend (c : dconn) (x : pending) : dconn :=
-    mkD (d_alive c) (d_want c) (d_hs c) (d_raw c) (d_hand c) x (d_retry c) (d_vers c) (d_cipher c) (d_epoch c) (d_deferred c) (d_ccs_done c) (d_dwell c) (d_delivered c) (d_freads c) (d_counted c) (d_n c) (d_depth c) (d_appended c) (d_iters c) (d_calls c).
+    mkD (d_alive c) (d_want c) (d_hs c) (d_raw c) (d_hand c) x (d_retry c) (d_vers c) (d_cipher c) (d_epoch c) (d_deferred c) (d_ccs_done c) (d_dwell c) (d_delivered c) (d_freads c) (d_counted c) (d_n c) (d_entry c) (d_frames c) (d_calls c).
   Definition set_retry (c : dconn) (x : nat) : dconn :=
-    mkD (d_alive c) (d_want c) (d_hs c) (d_raw c) (d_hand c) (d_pend c) x (d_vers c) (d_cipher c) (d_epoch c) (d_deferred c) (d_ccs_done c) (d_dwell c) (d_delivered c) (d_freads c) (d_counted c) (d_n c) (d_depth c) (d_appended c) (d_iters c) (d_calls c).
+    mkD (d_alive c) (d_want c) (d_hs c) (d_raw c) (d_hand c) (d_pend c) x (d_vers c) (d_cipher c) (d_epoch c) (d_deferred c) (d_ccs_done c) (d_dwell c) (d_delivered c) (d_freads c) (d_counted c) (d_n c) (d_entry c) (d_frames c) (d_calls c).
   Definition set_vers (c : dconn) (x : option N) : dconn :=
-    mkD (d_alive c) (d_want c) (d_hs c) (d_raw c) (d_hand c) (d_pend c) (d_retry c) x (d_cipher c) (d_epoch c) (d_deferred c) (d_ccs_done c) (d_dwell c) (d_delivered c) (d_freads c) (d_counted c) (d_n c) (d_depth c) (d_appended c) (d_iters c) (d_calls c).
+    mkD (d_alive c) (d_want c) (d_hs c) (d_raw c) (d_hand c) (d_pend c) (d_retry c) x (d_cipher c) (d_epoch c) (d_deferred c) (d_ccs_done c) (d_dwell c) (d_delivered c) (d_freads c) (d_counted c) (d_n c) (d_entry c) (d_frames c) (d_calls c).
   Definition set_cipher (c : dconn) (x : bool) : dconn :=
-    mkD (d_alive c) (d_want c) (d_hs c) (d_raw c) (d_hand c) (d_pend c) (d_retry c) (d_vers c) x (d_epoch c) (d_deferred c) (d_ccs_done c) (d_dwell c) (d_delivered c) (d_freads c) (d_counted c) (d_n c) (d_depth c) (d_appended c) (d_iters c) (d_calls c).
+    mkD (d_alive c) (d_want c) (d_hs c) (d_raw c) (d_hand c) (d_pend c) (d_retry c) (d_vers c) x (d_epoch c) (d_deferred c) (d_ccs_done c) (d_dwell c) (d_delivered c) (d_freads c) (d_counted c) (d_n c) (d_entry c) (d_frames c) (d_calls c).
   Definition set_epoch (c : dconn) (x : N) : dconn :=
-    mkD (d_alive c) (d_want c) (d_hs c) (d_raw c) (d_hand c) (d_pend c) (d_retry c) (d_vers c) (d_cipher c) x (d_deferred c) (d_ccs_done c) (d_dwell c) (d_delivered c) (d_freads c) (d_counted c) (d_n c) (d_depth c) (d_appended c) (d_iters c) (d_calls c).
+    mkD (d_alive c) (d_want c) (d_hs c) (d_raw c) (d_hand c) (d_pend c) (d_retry c) (d_vers c) (d_cipher c) x (d_deferred c) (d_ccs_done c) (d_dwell c) (d_delivered c) (d_freads c) (d_counted c) (d_n c) (d_entry c) (d_frames c) (d_calls c).
   Definition set_deferred (c : dconn) (x : bool) : dconn :=
-    mkD (d_alive c) (d_want c) (d_hs c) (d_raw c) (d_hand c) (d_pend c) (d_retry c) (d_vers c) (d_cipher c) (d_epoch c) x (d_ccs_done c) (d_dwell c) (d_delivered c) (d_freads c) (d_counted c) (d_n c) (d_depth c) (d_appended c) (d_iters c) (d_calls c).
+    mkD (d_alive c) (d_want c) (d_hs c) (d_raw c) (d_hand c) (d_pend c) (d_retry c) (d_vers c) (d_cipher c) (d_epoch c) x (d_ccs_done c) (d_dwell c) (d_delivered c) (d_freads c) (d_counted c) (d_n c) (d_entry c) (d_frames c) (d_calls c).
   Definition set_ccs_done (c : dconn) (x : bool) : dconn :=
-    mkD (d_alive c) (d_want c) (d_hs c) (d_raw c) (d_hand c) (d_pend c) (d_retry c) (d_vers c) (d_cipher c) (d_epoch c) (d_deferred c) x (d_dwell c) (d_delivered c) (d_freads c) (d_counted c) (d_n c) (d_depth c) (d_appended c) (d_iters c) (d_calls c).
+    mkD (d_alive c) (d_want c) (d_hs c) (d_raw c) (d_hand c) (d_pend c) (d_retry c) (d_vers c) (d_cipher c) (d_epoch c) (d_deferred c) x (d_dwell c) (d_delivered c) (d_freads c) (d_counted c) (d_n c) (d_entry c) (d_frames c) (d_calls c).
   Definition set_dwell (c : dconn) (x : bool) : dconn :=
-    mkD (d_alive c) (d_want c) (d_hs c) (d_raw c) (d_hand c) (d_pend c) (d_retry c) (d_vers c) (d_cipher c) (d_epoch c) (d_deferred c) (d_ccs_done c) x (d_delivered c) (d_freads c) (d_counted c) (d_n c) (d_depth c) (d_appended c) (d_iters c) (d_calls c).
+    mkD (d_alive c) (d_want c) (d_hs c) (d_raw c) (d_hand c) (d_pend c) (d_retry c) (d_vers c) (d_cipher c) (d_epoch c) (d_deferred c) (d_ccs_done c) x (d_delivered c) (d_freads c) (d_counted c) (d_n c) (d_entry c) (d_frames c) (d_calls c).
   Definition set_delivered (c : dconn) (x : nat) : dconn :=
-    mkD (d_alive c) (d_want c) (d_hs c) (d_raw c) (d_hand c) (d_pend c) (d_retry c) (d_vers c) (d_cipher c) (d_epoch c) (d_deferred c) (d_ccs_done c) (d_dwell c) x (d_freads c) (d_counted c) (d_n c) (d_depth c) (d_appended c) (d_iters c) (d_calls c).
+    mkD (d_alive c) (d_want c) (d_hs c) (d_raw c) (d_hand c) (d_pend c) (d_retry c) (d_vers c) (d_cipher c) (d_epoch c) (d_deferred c) (d_ccs_done c) (d_dwell c) x (d_freads c) (d_counted c) (d_n c) (d_entry c) (d_frames c) (d_calls c).
   Definition set_freads (c : dconn) (x : nat) : dconn :=
-    mkD (d_alive c) (d_want c) (d_hs c) (d_raw c) (d_hand c) (d_pend c) (d_retry c) (d_vers c) (d_cipher c) (d_epoch c) (d_deferred c) (d_ccs_done c) (d_dwell c) (d_delivered c) x (d_counted c) (d_n c) (d_depth c) (d_appended c) (d_iters c) (d_calls c).
+    mkD (d_alive c) (d_want c) (d_hs c) (d_raw c) (d_hand c) (d_pend c) (d_retry c) (d_vers c) (d_cipher c) (d_epoch c) (d_deferred c) (d_ccs_done c) (d_dwell c) (d_delivered c) x (d_counted c) (d_n c) (d_entry c) (d_frames c) (d_calls c).
   Definition set_counted (c : dconn) (x : bool) : dconn :=
-    mkD (d_alive c) (d_want c) (d_hs c) (d_raw c) (d_hand c) (d_pend c) (d_retry c) (d_vers c) (d_cipher c) (d_epoch c) (d_deferred c) (d_ccs_done c) (d_dwell c) (d_delivered c) (d_freads c) x (d_n c) (d_depth c) (d_appended c) (d_iters c) (d_calls c).
+    mkD (d_alive c) (d_want c) (d_hs c) (d_raw c) (d_hand c) (d_pend c) (d_retry c) (d_vers c) (d_cipher c) (d_epoch c) (d_deferred c) (d_ccs_done c) (d_dwell c) (d_delivered c) (d_freads c) x (d_n c) (d_entry c) (d_frames c) (d_calls c).
   Definition set_n (c : dconn) (x : nat) : dconn :=
-    mkD (d_alive c) (d_want c) (d_hs c) (d_raw c) (d_hand c) (d_pend c) (d_retry c) (d_vers c) (d_cipher c) (d_epoch c) (d_deferred c) (d_ccs_done c) (d_dwell c) (d_delivered c) (d_freads c) (d_counted c) x (d_depth c) (d_appended c) (d_iters c) (d_calls c).
-  Definition set_depth (c : dconn) (x : nat) : dconn :=
-    mkD (d_alive c) (d_want c) (d_hs c) (d_raw c) (d_hand c) (d_pend c) (d_retry c) (d_vers c) (d_cipher c) (d_epoch c) (d_deferred c) (d_ccs_done c) (d_dwell c) (d_delivered c) (d_freads c) (d_counted c) (d_n c) x (d_appended c) (d_iters c) (d_calls c).
-  Definition set_appended (c : dconn) (x : bool) : dconn :=
-    mkD (d_alive c) (d_want c) (d_hs c) (d_raw c) (d_hand c) (d_pend c) (d_retry c) (d_vers c) (d_cipher c) (d_epoch c) (d_deferred c) (d_ccs_done c) (d_dwell c) (d_delivered c) (d_freads c) (d_counted c) (d_n c) (d_depth c) x (d_iters c) (d_calls c).
-  Definition set_iters (c : dconn) (x : nat) : dconn :=
-    mkD (d_alive c) (d_want c) (d_hs c) (d_raw c) (d_hand c) (d_pend c) (d_retry c) (d_vers c) (d_cipher c) (d_epoch c) (d_deferred c) (d_ccs_done c) (d_dwell c) (d_delivered c) (d_freads c) (d_counted c) (d_n c) (d_depth c) (d_appended c) x (d_calls c).
+    mkD (d_alive c) (d_want c) (d_hs c) (d_raw c) (d_hand c) (d_pend c) (d_retry c) (d_vers c) (d_cipher c) (d_epoch c) (d_deferred c) (d_ccs_done c) (d_dwell c) (d_delivered c) (d_freads c) (d_counted c) x (d_entry c) (d_frames c) (d_calls c).
+  Definition set_entry (c : dconn) (x : nat) : dconn :=
+    mkD (d_alive c) (d_want c) (d_hs c) (d_raw c) (d_hand c) (d_pend c) (d_retry c) (d_vers c) (d_cipher c) (d_epoch c) (d_deferred c) (d_ccs_done c) (d_dwell c) (d_delivered c) (d_freads c) (d_counted c) (d_n c) x (d_frames c) (d_calls c).
+  Definition set_frames (c : dconn) (x : nat) : dconn :=
+    mkD (d_alive c) (d_want c) (d_hs c) (d_raw c) (d_hand c) (d_pend c) (d_retry c) (d_vers c) (d_cipher c) (d_epoch c) (d_deferred c) (d_ccs_done c) (d_dwell c) (d_delivered c) (d_freads c) (d_counted c) (d_n c) (d_entry c) x (d_calls c).
   Definition set_calls (c : dconn) (x : nat) : dconn :=
-    mkD (d_alive c) (d_want c) (d_hs c) (d_raw c) (d_hand c) (d_pend c) (d_retry c) (d_vers c) (d_cipher c) (d_epoch c) (d_deferred c) (d_ccs_done c) (d_dwell c) (d_delivered c) (d_freads c) (d_counted c) (d_n c) (d_depth c) (d_appended c) (d_iters c) x.
+    mkD (d_alive c) (d_want c) (d_hs c) (d_raw c) (d_hand c) (d_pend c) (d_retry c) (d_vers c) (d_cipher c) (d_epoch c) (d_deferred c) (d_ccs_done c) (d_dwell c) (d_delivered c) (d_freads c) (d_counted c) (d_n c) (d_entry c) (d_frames c) x.
 
   Definition dinit (s : S) (w : want) : dconn :=
-    mkD true w s [] [] [] 0 None false 0%N false false false 0 0 false 0 0 false 0 1.
+    mkD true w s [] [] [] 0 None false 0%N false false false 0 0 false 0 0 0 1.
 
   Definition dkill (c : dconn) : dconn := set_alive c false.
 
+  (* c.handBuf.Len() > handLenAtEntry *)
+  Definition grown (c : dconn) : bool := d_entry c <? length (d_hand c).
+  (* a new frame of readRecordOrCCS: handLenAtEntry := c.handBuf.Len() *)
+  Definition enter_call (c : dconn) : dconn := set_entry c (length (d_hand c)).
+
+  (* retryReadRecord: count, give up above maxUselessRecords, otherwise call readRecordOrCCS again:
+     one more frame on the stack, with its own handLenAtEntry *)
   Definition dretry_or_die (c : dconn) : dconn :=
     let r := Datatypes.S (d_retry c) in
-    if maxUselessRecords <? r then dkill (set_retry c r) else set_retry c r.
+    if maxUselessRecords <? r then dkill (set_retry c r)
+    else enter_call (set_frames (set_retry c r) (Datatypes.S (d_frames c))).
 
   (* ---------------- readDatagram ---------------- *)
-  (* c.rawInputBuf holds fewer than 13 bytes: the next datagram replaces it *)
+  (* c.rawInputBuf holds fewer than 13 bytes: the next datagram replaces it.  A datagram from
+     another address is skipped by the loop of readDatagram (nothing is kept for it); one that is
+     too short for a record header ends the handshake, and is dropped after completion *)
   Definition load (c : dconn) (d : dgram) : dconn :=
     match d with
-    | Foreign => set_depth c (Datatypes.S (d_depth c))          (* return c.readDatagram() *)
+    | Foreign => c                                               (* continue *)
     | FromPeer b =>
         let raw := firstn dgramBuf b in
-        let c := set_depth (set_raw c raw) 0 in
-        if length raw <? dRecordHeaderLen then dkill c else c   (* "record too short" *)
+        if length raw <? dRecordHeaderLen then
+          if want_eqb (d_want c) WApp then set_raw c []          (* c.rawInputBuf = nil; continue *)
+          else dkill (set_raw c raw)                             (* "record too short" *)
+        else set_raw c raw
     end.
 
   (* ---------------- one iteration of the loop in readRecordOrCCS ---------------- *)
@@ -142,7 +179,7 @@ Section DMachine.
     match data with
     | [lvl; code] =>
         if (code =? 0)%N then (dkill c, Return)                               (* close_notify *)
-        else if (lvl =? 1)%N then (dretry_or_die (set_raw c []), Continue)    (* warning: dropped *)
+        else if (lvl =? 1)%N then (dretry_or_die (set_raw c []), Continue)    (* warning: dropped, with the rest of its datagram *)
         else (dkill c, Return)
     | _ => (dkill c, Return)
     end.
@@ -174,7 +211,7 @@ Section DMachine.
     if length data =? 0 then (dkill c, Return) else
     if expect then (c, Continue) else
     if hs_done then (c, Continue) else
-    let c := set_appended (set_hand c (d_hand c ++ data)) true in
+    let c := set_hand c (d_hand c ++ data) in
     if (dRecordHeaderLen <=? length rest) && (nth0 rest 0 =? 22)%N then (c, Continue) else (c, Return).
 
   Definition dispatch (c : dconn) (typ : N) (data rest : bytes) (idx : nat) (hs_done expect : bool) : dconn * act :=
@@ -184,11 +221,13 @@ Section DMachine.
     else if (typ =? 22)%N then p_hs c data rest idx hs_done expect
     else (dkill c, Return).
 
-  (* after the header checks: epoch filter, decryption, drops, size checks *)
+  (* after the header checks: epoch filter (the dwell retransmission it may trigger changes nothing
+     here), decryption (a failure is fatal during the handshake, a silent drop after it), drops,
+     size checks *)
   Definition p_body (c : dconn) (typ epoch : N) (body rest : bytes) (idx : nat) (hs_done expect : bool) : dconn * act :=
     if negb (epoch =? d_epoch c)%N then (set_raw c rest, Continue) else
     match dec (d_cipher c) typ body with
-    | None => (dkill c, Return)
+    | None => if hs_done then (set_raw c rest, Continue) else (dkill c, Return)
     | Some data =>
         if (typ =? 20)%N && negb expect && negb hs_done && empty (d_hand c) then (set_raw c rest, Continue) else
         if negb (fresh idx) then (set_raw c rest, Continue) else
@@ -198,7 +237,8 @@ Section DMachine.
         dispatch (set_raw c rest) typ data rest idx hs_done expect
     end.
 
-  (* precondition: 13 <= |rawInputBuf| *)
+  (* precondition: 13 <= |rawInputBuf|.  After completion a datagram whose head is not a
+     well-formed record of the connection's version is dropped as a whole *)
   Definition process (c0 : dconn) : dconn * act :=
     let raw := d_raw c0 in
     let typ := nth0 raw 0 in
@@ -207,10 +247,12 @@ Section DMachine.
     let n := N.to_nat (b16 (nth0 raw 11) (nth0 raw 12)) in
     let hs_done := want_eqb (d_want c0) WApp in
     let expect := want_eqb (d_want c0) WCcs && negb (d_ccs_done c0) in
-    if match d_vers c0 with
-       | Some v => negb (vers =? v)%N
-       | None => (negb (typ =? 21)%N && negb (typ =? 22)%N) || (4096 <=? vers)%N
-       end then (dkill c0, Return) else
+    let drop := (set_raw c0 [], Continue) in                      (* c.rawInputBuf = nil; continue *)
+    if match d_vers c0 with Some v => negb (vers =? v)%N | None => false end
+    then (if hs_done then drop else (dkill c0, Return)) else
+    if match d_vers c0 with Some _ => false | None => (negb (typ =? 21)%N && negb (typ =? 22)%N) || (4096 <=? vers)%N end
+    then (dkill c0, Return) else
+    if hs_done && ((maxCiphertext <? n) || (length raw <? dRecordHeaderLen + n)) then drop else
     if maxCiphertext <? n then (dkill c0, Return) else
     if length raw <? dRecordHeaderLen + n then (dkill c0, Return) else
     p_body (set_n c0 (Datatypes.S (d_n c0))) typ epoch
@@ -246,8 +288,7 @@ Section DMachine.
             else c
         | WMsg =>
             (* top of the loop: fragmentReads++ *)
-            let c := if d_counted c then c
-                     else set_iters (set_counted (set_freads c (Datatypes.S (d_freads c))) true) (Datatypes.S (d_iters c)) in
+            let c := if d_counted c then c else set_counted (set_freads c (Datatypes.S (d_freads c))) true in
             if maxHandshakeFragments <? d_freads c then dkill c else
             let h := d_hand c in
             if length h <? dHeaderLen then c else
@@ -260,6 +301,9 @@ Section DMachine.
             if length h <? dHeaderLen + flen then c else
             let f := mkFrag (nth0 h 0) blen seq off flen (firstn flen (skipn dHeaderLen h)) in
             let c := set_counted (set_hand c (skipn (dHeaderLen + flen) h)) false in
+            (* no new reassembly buffer when maxHandshakeFragments of them exist: "too many incomplete
+               handshake messages" *)
+            if refuse_new_buffer (d_pend c) f then dkill c else
             match rh_step (d_pend c) f with
             | (p, Cont) => ddrive k (set_pend c p)
             | (p, RErr _) => dkill (set_pend c p)
@@ -276,33 +320,36 @@ Section DMachine.
      or clears deferredCCS *)
   Definition dfuel (c : dconn) : nat := Datatypes.S (Datatypes.S (length (d_hand c))).
 
-  (* readRecordOrCCS returned to its caller *)
+  (* readRecordOrCCS returned to its caller (every frame of the retry recursion returns with it);
+     the caller goes on and, if the connection is still there, will call readRecordOrCCS again *)
   Definition dafter (c : dconn) : dconn :=
     if negb (d_alive c) then c else
-    let c := set_appended c false in
-    match d_want c with
-    | WMsg => ddrive (dfuel c) c
-    | WCcs =>
-        if d_ccs_done c then
-          match on_ccs (d_hs c) with
-          | None => dkill c
-          | Some (s, w) => let c := move_on (set_ccs_done c false) s w None in ddrive (dfuel c) c
-          end
-        else c
-    | WApp => c
-    end.
+    let c := set_frames c 0 in
+    enter_call
+      match d_want c with
+      | WMsg => ddrive (dfuel c) c
+      | WCcs =>
+          if d_ccs_done c then
+            match on_ccs (d_hs c) with
+            | None => dkill c
+            | Some (s, w) => let c := move_on (set_ccs_done c false) s w None in ddrive (dfuel c) c
+            end
+          else c
+      | WApp => c
+      end.
 
   Inductive dstop := DBlocked | DEnded | DOutOfFuel.
 
   (* the connection over a sequence of datagrams: one iteration = one trip through the loop of
-     readRecordOrCCS (or one readDatagram) *)
+     readRecordOrCCS (or one datagram taken by readDatagram) *)
   Fixpoint drun (fuel : nat) (c : dconn) (dgs : list dgram) : dconn * list dgram * dstop :=
     match fuel with
     | O => (c, dgs, DOutOfFuel)
     | Datatypes.S k =>
         if negb (d_alive c) then (c, dgs, DEnded) else
         if length (d_raw c) <? dRecordHeaderLen then
-          if fix11 && d_appended c then drun k (dafter c) dgs else
+          (* the datagram is used up: back to the handshake layer if handBuf grew in this call *)
+          if grown c then drun k (dafter c) dgs else
           match dgs with
           | [] => (c, [], DBlocked)
           | d :: t => drun k (load c d) t
@@ -314,11 +361,111 @@ Section DMachine.
           end
     end.
 
+  (* ---------------- regression definitions ---------------- *)
+  (* the same without the limit on the number of reassembly buffers (before 1e7de38, finding K12) *)
+  Fixpoint ddrive_K12 (fuel : nat) (c : dconn) : dconn :=
+    match fuel with
+    | O => c
+    | Datatypes.S k =>
+        if negb (d_alive c) then c else
+        match d_want c with
+        | WApp => c
+        | WCcs =>
+            (* readChangeCipherSpec: a ChangeCipherSpec consumed earlier is applied at once *)
+            if d_deferred c then
+              match on_ccs (d_hs c) with
+              | None => dkill (set_deferred c false)
+              | Some (s, w) =>
+                  let c := set_epoch (set_cipher (set_deferred c false) true) ((d_epoch c + 1) mod 65536)%N in
+                  ddrive_K12 k (move_on c s w None)
+              end
+            else c
+        | WMsg =>
+            (* top of the loop: fragmentReads++ *)
+            let c := if d_counted c then c else set_counted (set_freads c (Datatypes.S (d_freads c))) true in
+            if maxHandshakeFragments <? d_freads c then dkill c else
+            let h := d_hand c in
+            if length h <? dHeaderLen then c else
+            let blen := b24n (nth0 h 1) (nth0 h 2) (nth0 h 3) in
+            let seq := b16 (nth0 h 4) (nth0 h 5) in
+            let off := b24n (nth0 h 6) (nth0 h 7) (nth0 h 8) in
+            let flen := b24n (nth0 h 9) (nth0 h 10) (nth0 h 11) in
+            if maxHandshakeT <? blen then dkill c else
+            if blen <? off + flen then dkill c else
+            if length h <? dHeaderLen + flen then c else
+            let f := mkFrag (nth0 h 0) blen seq off flen (firstn flen (skipn dHeaderLen h)) in
+            let c := set_counted (set_hand c (skipn (dHeaderLen + flen) h)) false in
+            match rh_step (d_pend c) f with
+            | (p, Cont) => ddrive_K12 k (set_pend c p)
+            | (p, RErr _) => dkill (set_pend c p)
+            | (p, Msg m) =>
+                match on_msg (d_hs c) m with
+                | None => dkill (set_pend c p)
+                | Some (s, w, v) => ddrive_K12 k (move_on (set_pend c p) s w v)
+                end
+            end
+        end
+    end.
+
+  Definition dafter_K12 (c : dconn) : dconn :=
+    if negb (d_alive c) then c else
+    let c := set_frames c 0 in
+    enter_call
+      match d_want c with
+      | WMsg => ddrive_K12 (dfuel c) c
+      | WCcs =>
+          if d_ccs_done c then
+            match on_ccs (d_hs c) with
+            | None => dkill c
+            | Some (s, w) => let c := move_on (set_ccs_done c false) s w None in ddrive_K12 (dfuel c) c
+            end
+          else c
+      | WApp => c
+      end.
+
+  Fixpoint drun_K12 (fuel : nat) (c : dconn) (dgs : list dgram) : dconn * list dgram * dstop :=
+    match fuel with
+    | O => (c, dgs, DOutOfFuel)
+    | Datatypes.S k =>
+        if negb (d_alive c) then (c, dgs, DEnded) else
+        if length (d_raw c) <? dRecordHeaderLen then
+          (* the datagram is used up: back to the handshake layer if handBuf grew in this call *)
+          if grown c then drun_K12 k (dafter_K12 c) dgs else
+          match dgs with
+          | [] => (c, [], DBlocked)
+          | d :: t => drun_K12 k (load c d) t
+          end
+        else
+          match process c with
+          | (c1, Continue) => drun_K12 k c1 dgs
+          | (c1, Return) => drun_K12 k (dafter_K12 c1) dgs
+          end
+    end.
+
+  (* the same without the return once handBuf grew (before 6b259b8, finding K14) *)
+  Fixpoint drun_K14 (fuel : nat) (c : dconn) (dgs : list dgram) : dconn * list dgram * dstop :=
+    match fuel with
+    | O => (c, dgs, DOutOfFuel)
+    | Datatypes.S k =>
+        if negb (d_alive c) then (c, dgs, DEnded) else
+        if length (d_raw c) <? dRecordHeaderLen then
+          match dgs with
+          | [] => (c, [], DBlocked)
+          | d :: t => drun_K14 k (load c d) t
+          end
+        else
+          match process c with
+          | (c1, Continue) => drun_K14 k c1 dgs
+          | (c1, Return) => drun_K14 k (dafter c1) dgs
+          end
+    end.
+
+
   (* bytes still to be consumed, counted so that every iteration lowers the measure *)
   Definition dg_size (d : dgram) : nat :=
     match d with Foreign => dRecordHeaderLen | FromPeer b => Nat.min dgramBuf (length b) + dRecordHeaderLen end.
   Definition dmeasure (c : dconn) (dgs : list dgram) : nat :=
-    2 * (length (d_raw c) + list_sum (map dg_size dgs)) + (if d_appended c then 1 else 0).
+    2 * (length (d_raw c) + list_sum (map dg_size dgs)) + (if grown c then 1 else 0).
 End DMachine.
 
 Arguments d_alive {S}.
@@ -338,8 +485,7 @@ Arguments d_delivered {S}.
 Arguments d_freads {S}.
 Arguments d_counted {S}.
 Arguments d_n {S}.
-Arguments d_depth {S}.
-Arguments d_appended {S}.
-Arguments d_iters {S}.
+Arguments d_entry {S}.
+Arguments d_frames {S}.
 Arguments d_calls {S}.
 Arguments dinit {S}.
